@@ -128,8 +128,18 @@ func DecodeColor1(x byte) Color {
 var dc1Table = [5]byte{0x00, 0x40, 0x80, 0xc0, 0xff}
 
 func Is1(c color.RGBA) bool {
+	if c.A != 0xff {
+		// The only translucent colors with a 1 byte encoding.
+		switch c {
+		case color.RGBA{0x00, 0x00, 0x00, 0x00},
+			color.RGBA{0x80, 0x80, 0x80, 0x80},
+			color.RGBA{0xc0, 0xc0, 0xc0, 0xc0}:
+			return true
+		}
+		return false
+	}
 	is1 := func(u uint8) bool { return u&0x3f == 0 || u == 0xff }
-	return is1(c.R) && is1(c.G) && is1(c.B) && is1(c.A)
+	return is1(c.R) && is1(c.G) && is1(c.B)
 }
 
 func Is2(c color.RGBA) bool {
